@@ -150,3 +150,25 @@ Definition loop_accounted (l : rloop) : bool :=
 Definition loops_ok (ls : list rloop) : bool := forallb loop_accounted ls.
 Definition unaccounted_loops (ls : list rloop) : list (string * string * nat * string) :=
   map (fun l => (l_file l, l_func l, l_ord l, l_x l)) (filter (fun l => negb (loop_accounted l)) ls).
+
+(* ------------------------------------------------------------------ mutexes: a lock taken while serving a request is given back
+   on every way out. A Lock()/RLock() statement is
+     MDeferred  followed by `defer X.Unlock()` (nothing can leave in between),
+     MPaired    followed, in the same statement list, by X.Unlock(), and every `return` in between is directly
+                preceded by its own X.Unlock() (no break/continue/goto out of the region),
+     MLeaky     some way out of the region keeps the lock (every later request needing it blocks forever),
+     MUnmatched no Unlock in the same statement list. *)
+Inductive mstatus := MDeferred | MPaired | MLeaky | MUnmatched.
+Record mlock := { m_file : string; m_func : string; m_ord : nat; m_recv : string; m_kind : string; m_status : mstatus }.
+
+(* reviewed exceptions (none needed today) *)
+Definition lock_allow : list (string * string * nat) := [].
+
+Definition lock_accounted (l : mlock) : bool :=
+  match m_status l with
+  | MDeferred | MPaired => true
+  | _ => existsb (fun a => let '(f, fn, o) := a in String.eqb (m_file l) f && String.eqb (m_func l) fn && Nat.eqb (m_ord l) o) lock_allow
+  end.
+Definition locks_ok (ls : list mlock) : bool := forallb lock_accounted ls.
+Definition unaccounted_locks (ls : list mlock) : list (string * string * nat * string) :=
+  map (fun l => (m_file l, m_func l, m_ord l, m_recv l)) (filter (fun l => negb (lock_accounted l)) ls).
